@@ -69,6 +69,14 @@ func canonExpr(v ssa.Value, k map[ssa.Value]bool, depth int) string {
 		}
 		return "(" + a + x.Op.String() + b + ")"
 	case *ssa.Call:
+		// a one-block helper of the repository with a single result: expand it with its parameters bound
+		if h := x.Call.StaticCallee(); h != nil && len(h.Blocks) == 1 && h.Pkg != nil && strings.HasPrefix(h.Pkg.Pkg.Path(), "github.com/elastos/Elastos.ELA") && h != x.Parent() {
+			if ret, ok := h.Blocks[0].Instrs[len(h.Blocks[0].Instrs)-1].(*ssa.Return); ok && len(ret.Results) == 1 {
+				out := ""
+				ssau.WithParamSubst(x, func() { out = canonExpr(ret.Results[0], k, depth+1) })
+				return out
+			}
+		}
 		name := x.Call.Value.String()
 		if f := x.Call.StaticCallee(); f != nil {
 			name = f.String()
